@@ -54,6 +54,12 @@ def build(args):
             ps = parse_all(s, top, sub)
             tree = tree_json(abstract_tree(cz, ps[0])) if len(ps) == 1 else {"m": "?", "leaf": True, "kids": []}
             reads.append({"pat": top + " | " + sub, "string": s, "nparses": len(ps), "tree": tree})
+        # the plain one-line descriptor (no format block active any more): round brackets, read back the same way
+        top, sub = cio.PATTERNS[0]
+        s = cio.build_chain(cz, c, rng=rng).to_string()
+        ps = parse_all(s, top, sub)
+        tree = tree_json(abstract_tree(cz, ps[0])) if len(ps) == 1 else {"m": "?", "leaf": True, "kids": []}
+        reads.append({"pat": "default, after the format blocks", "string": s, "nparses": len(ps), "tree": tree})
     except Exception as e:  # noqa: BLE001
         raised = repr(e)[:200]
         reads.append({"pat": "raised", "string": raised, "nparses": 0, "tree": {"m": "?", "leaf": True, "kids": []}})
